@@ -423,6 +423,33 @@ func (n *JNode) Set(p JPath, v *JNode) bool {
 	return false
 }
 
+// Delete removes the object member or array element at path.
+func (n *JNode) Delete(p JPath) bool {
+	if len(p.Steps) == 0 {
+		return false
+	}
+	parent := n.At(JPath{p.Steps[:len(p.Steps)-1]})
+	if parent == nil {
+		return false
+	}
+	s := p.Steps[len(p.Steps)-1]
+	if s.IsIdx {
+		if parent.Kind != "arr" || s.Index >= len(parent.Vals) {
+			return false
+		}
+		parent.Vals = append(parent.Vals[:s.Index], parent.Vals[s.Index+1:]...)
+		return true
+	}
+	for i, k := range parent.Keys {
+		if k == s.Key && parent.Kind == "obj" {
+			parent.Keys = append(parent.Keys[:i], parent.Keys[i+1:]...)
+			parent.Vals = append(parent.Vals[:i], parent.Vals[i+1:]...)
+			return true
+		}
+	}
+	return false
+}
+
 // FromGo converts a decoded Go value (as produced by encoding/json or handed to
 // a placeholder) into a tree via encoding/json.
 func FromGo(v any) (*JNode, error) {
